@@ -24,8 +24,9 @@ RULE = ("API-built documents (3..9 rows x 2..6 columns, optional second table at
         "script over {row_height, col_width, header counts, table/sheet name, caption text, caption / name visibility} x 0..6 "
         "border strokes of dyadic widths 0.25..8 pt on the affected rows/columns (before and after the sizes are set) x "
         "sizes queried or not before saving x 1..3 save/reopen cycles; 30 % of the API-built histories end in a structural tail "
-        "(table added below, add_row(1..6) / add_column(1..2) / delete_row at the end / resize) with 0..3 further strokes on the "
-        "last row / column or running past them (oracle only); every observable of every table compared with a twin "
+        "(table added below, add_row(1..6) / add_column(1..2) / resize; delete_row at the end only in histories without strokes - "
+        "recorded finding stale-size-memo-after-delete-row) with 0..3 further strokes on the last row / column or running past "
+        "them (oracle only); every observable of every table compared with a twin "
         "document that was built the same way and only read. One protocol line per axis (rows, columns) and one for the labels "
         "of the scripted table. Non-trivial = a history with at least one explicit size, border or label change, or a fixture "
         "table with a non-default stored size; distinct by protocol line")
@@ -349,7 +350,9 @@ def history(sub: Ctx, seed: int, h: int, fixture):
         hdr = max([op[1] for op in script if op[0] == "hdr_rows"] + [tb_t.num_header_rows])
         grow = [["addrow", rng.randint(1, 6)], ["rowh", rng.randrange(min(nr, hdr + 1)), rng.randint(40, 150)],
                 ["addcol", rng.randint(1, 2)]]   # (a row that no `delrow` of the tail removes)
-        if nr - hdr >= 3:
+        # rows are deleted only in histories without strokes: a size that was read while a stroke of the deleted rows counted
+        # towards it stays memoised (recorded finding `stale-size-memo-after-delete-row`, scenario `read-stroke-then-delete-row`)
+        if nr - hdr >= 3 and not any(op[0] == "stroke" for op in script):
             grow.append(["delrow", rng.randint(1, nr - hdr - 1)])
         t1 = ["addtable", None if rng.random() < 0.7 else [float(rng.choice([0, 40])), float(rng.choice([300, 512.5]))],
               rng.randint(2, 5), rng.randint(2, 4)]
@@ -546,6 +549,23 @@ def scenario(name):
             return ("size-changes-on-reopen-after-add-next-to-stroke",
                     "4 pt borders on the bottom of A5 (last row) and the right of C1 (last column), then add_row(2), add_column(1): "
                     f"(row heights, column widths, height, width) before the save {before}, after reopen {after}")
+    elif name == "read-stroke-then-delete-row":
+        # recorded finding: delete_row does not drop the memoised column widths (nor delete_column the row heights)
+        def build_doc(read_first):
+            doc = Document(num_rows=5, num_cols=3)
+            tb = doc.sheets[0].tables[0]
+            tb.set_cell_border(4, 2, "left", Border(8.0, RGB(0, 0, 0), "solid"), 3)     # only the last row shows it
+            if read_first:
+                tb.col_width(1)
+            tb.delete_row(1)
+            return doc
+        a = build_doc(True)
+        b = build_doc(False)
+        wa, wb = a.sheets[0].tables[0].col_width(1), b.sheets[0].tables[0].col_width(1)
+        ra, rb = cycle(a).sheets[0].tables[0].col_width(1), cycle(b).sheets[0].tables[0].col_width(1)
+        if (wa, ra) != (wb, rb):
+            return ("stale-size-memo-after-delete-row", "8 pt stroke on the left of C5 (last row of 5), then delete_row(1): col_width(1) is "
+                    f"{wb} (reopened {rb}); if col_width(1) was read before the row was deleted it stays {wa} (reopened {ra})")
     elif name == "set-then-border":
         doc = Document()
         tb = doc.sheets[0].tables[0]
@@ -580,7 +600,7 @@ def scenario(name):
 
 
 SCENARIOS = ["issue-69b-unqueried", "border-drift", "set-then-border", "border-then-set", "caption-on-old-document",
-             "stroke-then-add-row"]
+             "stroke-then-add-row", "read-stroke-then-delete-row"]
 
 
 def _scenario_worker(task):
